@@ -25,8 +25,11 @@ class NodeWorld:
         self.trace = self.k.trace
         self.shims = Shims(self.k)
         self.shims.install()
+        # per-run unique objects (salted base and reward data): nothing this run builds exists in another run of the same
+        # worker process, so state a changed tree keeps at module level cannot carry a verdict from run to run
         self.sim = LedgerSim({'base': cfg.get('base', 'hreal'), 'hard': cfg.get('hard', False), 'k': cfg.get('k', 0),
-                              'elapsed': cfg.get('elapsed', 1_209_600)}, prop, res, self.trace)
+                              'elapsed': cfg.get('elapsed', 1_209_600),
+                              'salt': cfg.get('salt', 1 + script.get('seed', 0) % 0xfffffff0)}, prop, res, self.trace)
         self.sim.run(cfg.get('build', []))
         self.store_file = None
         path = ':memory:'
